@@ -47,7 +47,9 @@ func c10Indices(ln int) []c10Idx {
 	return []c10Idx{{"0", 0, true}, {"1", 1, true}, {"2", 2, true}, {fmt.Sprint(ln - 1), ln - 1, true}, {fmt.Sprint(ln), ln, true},
 		{fmt.Sprint(ln + 1), ln + 1, true}, {"-1", -1, true}, {`"k"`, 0, false}, {"nil", 0, false}, {"[0]", 0, false}, {"{}", 0, false},
 		// the language converts an index the way toInt does: true is 1, a float is truncated, a numeral string is parsed
-		{"true", 1, true}, {"false", 0, true}, {"1.9", 1, true}, {`"1"`, 1, true}, {"-0.5", 0, true}}
+		{"true", 1, true}, {"false", 0, true}, {"1.9", 1, true}, {`"1"`, 1, true}, {"-0.5", 0, true},
+		// a numeral string is a decimal numeral: leading zeros do not make it octal, and prefixed or underscored spellings are no numerals
+		{`"02"`, 2, true}, {`"010"`, 10, true}, {`"00"`, 0, true}, {`"0x1"`, 0, false}, {`"0b1"`, 0, false}, {`"0o1"`, 0, false}, {`"1_0"`, 0, false}, {`"+1"`, 1, true}}
 }
 
 func c10Proj(x interface{}) string { return projValue(x, projDepth) }
